@@ -10,16 +10,17 @@ one() {
   mkdir -p "$d"
   rsync -a --exclude .git /repo/ "$d/repo/"
   if ! (cd "$d/repo" && patch -s -p1 < "/verif/$p"); then echo "SELFTEST-ERROR $p does not apply"; rm -rf "$d"; return; fi
-  if ! (cd "$d/repo" && go build ./... 2>"$d/build.log"); then echo "SELFTEST-ERROR $p does not compile"; rm -rf "$d"; return; fi
   # first only the functions defined in the files the patch touches (a caller is checked against the callee's
   # contract, not its body, so that is where a violation has to show); the whole property if that finds nothing
   files=$(grep '^+++ ' "/verif/$p" | sed 's/^+++ [ab]\///; s/\t.*//' | tr '\n' ',' | sed 's/,$//')
-  out=$(./bin/govc check -repo "$d/repo" -spec /verif/spec -prop $prop -tier quick -evidence "$d/ev.json" -known /verif/known_findings.json -replay "$d/replay" -onlyfiles "$files" 2>&1)
+  out=$(./bin/govc check -repo "$d/repo" -spec /verif/spec -prop $prop -tier quick -evidence "$d/ev.json" -known /verif/known_findings.json -replay "$d/replay" -noreplay -onlyfiles "$files" 2>&1)
   rc=$?
   if ! { [ $rc -eq 1 ] && echo "$out" | grep -q "^VIOLATION property=$prop"; }; then
-    out=$(./bin/govc check -repo "$d/repo" -spec /verif/spec -prop $prop -tier quick -evidence "$d/ev.json" -known /verif/known_findings.json -replay "$d/replay" 2>&1)
+    out=$(./bin/govc check -repo "$d/repo" -spec /verif/spec -prop $prop -tier quick -evidence "$d/ev.json" -known /verif/known_findings.json -replay "$d/replay" -noreplay 2>&1)
     rc=$?
   fi
+  # a mutant that does not compile is a defect of the corpus, not a verdict
+  if echo "$out" | grep -q "ENGINE-ERROR: load failed"; then echo "SELFTEST-ERROR $p does not compile"; rm -rf "$d"; return; fi
   if [ $rc -eq 1 ] && echo "$out" | grep -q "^VIOLATION property=$prop"; then
     echo "caught   $p: $(echo "$out" | grep '^VIOLATION' | head -1 | sed 's/.*obligation=//')"
   else
